@@ -1,5 +1,5 @@
 \* expected to violate I_Exact: known finding C02-cartesian-mixed-depth-order-dependent
-CONSTANTS TreeKind = "cart1"  NP = 2  MaxPer = 2  MaxTotal = 3  Mix = "mixed"  MinDepth = 2
+CONSTANTS TreeKind = "cart1"  NP = 2  MaxPer = 2  MaxTotal = 3  Mix = "mixed"  MinDepth = 2  MaxDepth = 3
   Tree <- MCTree
   StreamSet <- MCStreams
   Record = FALSE
